@@ -22,6 +22,11 @@ EVID = os.path.join(HERE, "evidence")
 REPLAY_DIR = os.path.join(EVID, "replay")
 
 
+def norm_label(l):
+    import re
+    return re.sub(r"@L\d+", "", l)
+
+
 def load_contracts():
     mods = {}
     for p in sorted(glob.glob(os.path.join(HERE, "contracts", "*.py"))):
@@ -221,6 +226,15 @@ class PropertyCheck:
             return set(json.load(open(p)).get(self.pid, []))
         return set()
 
+    def write_baseline(self, labels):
+        """Developer command (bin/check <id> --write-baseline): record the obligations discharged on the
+        reviewed tree.  Never called by a registered check."""
+        p = os.path.join(HERE, "baseline", "obligations.json")
+        d = json.load(open(p)) if os.path.exists(p) else {}
+        d[self.pid] = sorted({norm_label(l) for l, s in labels.items() if s == "discharged"})
+        os.makedirs(os.path.dirname(p), exist_ok=True)
+        json.dump(d, open(p, "w"), indent=0, sort_keys=True)
+
     def judge_report(self, rep, baseline):
         key = rep.key
         if rep.status == "anchor-lost":
@@ -314,7 +328,7 @@ class PropertyCheck:
         if confirmed is not None:
             self.report_violation(key, label, confirmed, ob)
             return
-        if label in baseline:
+        if norm_label(label) in baseline:
             # baseline obligation now refuted, no failing input found
             path = self.write_replay(key, label, None, ob, note="no failing input found; solver refuted a baseline obligation")
             self.violations.append({"function": key, "obligation": label, "replay": path, "confirmed": False})
@@ -360,7 +374,9 @@ class PropertyCheck:
                 self.known.append(k)
                 self.say(f"KNOWN-FINDING: property={self.pid} {k['id']} {k['what_fails']}")
             return
-        sig = (key, tuple(sorted(viol.get("failed", []))))
+        sig = (key, tuple(sorted(f.split("(")[0] for f in viol.get("failed", []))))
+        if sum(1 for v in self.violations if v.get("function") == key) >= 3:
+            return
         if any(v.get("sig") == sig for v in self.violations):
             return
         path = self.write_replay(key, label, viol, ob)
@@ -485,6 +501,8 @@ class PropertyCheck:
         os.makedirs(EVID, exist_ok=True)
         with open(os.path.join(EVID, f"{self.pid}.json"), "w") as f:
             json.dump(ev, f, indent=1, default=str)
+        if getattr(self, "want_baseline", False) and not self.violations and not self.checker_errors:
+            self.write_baseline(labels)
         self.say(f"SUMMARY property={self.pid} tier={self.tier} obligations={n_obl} discharged={n_dis} "
                  f"undecided={len(self.undecided)} violations={len(self.violations)} known={len(self.known)} "
                  f"bounded_evals={cov.get('evaluations', 0)} wall={wall:.1f}s")
